@@ -124,6 +124,18 @@ def run(chk):
             chk.ok('C13-R3', fname, sample='%s: jump_to / 2 iff minor >= 10' % fname)
         else:
             chk.bad('C13-R3', fname, 'unit', '%s no longer converts byte offsets to instruction offsets exactly for minor >= 10' % fname, CODEGEN, f['line'])
+    literal_jump_rule(chk, fns)
+
+    # ---- R2
+    r2(chk, fx)
+    from sa.props.c14 import call_pairing_rule
+    call_pairing_rule(chk, by_norm, rid='C13-R4', diverging_only=True)
+    return ('Per-version specialisation of the code generator (typed HIR; version predicates evaluated for each of 3.7-3.11, dead branches pruned, reachability recomputed) '
+            'with every opcode operand of write_instr checked against dis.opmap of that version; unit rules for jump operands; argument-flow rule for --py-command. '
+            'That the emitted sequence computes the same result on every version is a run-time fact and is not decided.'), {}
+
+
+def literal_jump_rule(chk, fns, rid='C13-R3'):
     lit_sites = 0
     for f in fns:
         env = VS.let_env(f)
@@ -149,21 +161,13 @@ def run(chk):
                                 lit_sites += 1
                                 where = T.norm(f['path'])
                                 if vals[9] == 2 * vals[10] and vals[7] == vals[8] == vals[9]:
-                                    chk.ok('C13-R3', (where, s2['l']), sample='%s: %s operand %s' % (where, sorted(names), vals))
+                                    chk.ok(rid, (where, s2['l']), sample='%s: %s operand %s' % (where, sorted(names), vals))
                                 else:
-                                    chk.bad('C13-R3', where, 'literal-jump:%s' % '/'.join(sorted(names)),
+                                    chk.bad(rid, where, 'literal-jump:%s' % '/'.join(sorted(names)),
                                             '%s writes the literal jump operand %s per version after %s: the byte offset for <= 3.9 (%s) is not twice the instruction offset for 3.10 (%s)'
                                             % (where, vals, sorted(names), vals[9], vals[10]), CODEGEN, s2['l'])
                             break
     chk.floor('version-selected literal jump operands', lit_sites, 1)
-
-    # ---- R2
-    r2(chk, fx)
-    from sa.props.c14 import call_pairing_rule
-    call_pairing_rule(chk, by_norm, rid='C13-R4', diverging_only=True)
-    return ('Per-version specialisation of the code generator (typed HIR; version predicates evaluated for each of 3.7-3.11, dead branches pruned, reachability recomputed) '
-            'with every opcode operand of write_instr checked against dis.opmap of that version; unit rules for jump operands; argument-flow rule for --py-command. '
-            'That the emitted sequence computes the same result on every version is a run-time fact and is not decided.'), {}
 
 
 def r2(chk, fx):
